@@ -53,6 +53,37 @@ def parseArg (a : String) : Option V :=
     pure (mkobj "self" kvs)
   | _ => parseScalar a
 
+/-- nested values, `J<value>`: `[v;v;…]` list, `(v;v;…)` tuple, `{<keyhex>:v;…}` dict with string keys, scalars as above
+(the characters `[](){};:` occur in no scalar atom) -/
+partial def parseNested : List Char → Option (V × List Char)
+  | '[' :: r => do let (xs, r) ← items r ']'; pure (.list xs, r)
+  | '(' :: r => do let (xs, r) ← items r ')'; pure (.tuple xs, r)
+  | '{' :: r => do
+    let (kvs, r) ← fields r
+    pure (.dict (kvs.map (·.1)) (kvs.map (·.2)), r)
+  | cs =>
+    let a := cs.takeWhile fun c => !(c == ';' || c == ']' || c == ')' || c == '}' || c == ':')
+    (parseScalar (String.ofList a)).map fun v => (v, cs.drop a.length)
+where
+  items (cs : List Char) (close : Char) : Option (List V × List Char) :=
+    match cs with
+    | c :: r => if c == close then some ([], r) else do
+      let (v, r) ← parseNested (if c == ';' then r else cs)
+      let (vs, r) ← items r close
+      pure (v :: vs, r)
+    | [] => none
+  fields (cs : List Char) : Option (List (String × V) × List Char) :=
+    match cs with
+    | '}' :: r => some ([], r)
+    | c :: r => do
+      let cs := if c == ';' then r else cs
+      let k := cs.takeWhile (· != ':')
+      let key ← parseStr (String.ofList k)
+      let (v, r) ← parseNested (cs.drop (k.length + 1))
+      let (kvs, r) ← fields r
+      pure ((key, v) :: kvs, r)
+    | [] => none
+
 /-- `H<atom>`: the instance of a structure whose `frame.handler` is the atom (`n`, or the owning device as the dict
 of its data `D…`) -/
 def parseArg' (a : String) : Option V :=
@@ -60,6 +91,9 @@ def parseArg' (a : String) : Option V :=
   | 'H' :: r => do
     let h ← parseArg (String.ofList r)
     pure (mkobj "self" [("frame", mkobj "FrameRef" [("handler", h)])])
+  | 'J' :: r => do
+    let (v, rest) ← parseNested r
+    if rest.isEmpty then pure v else none
   | _ => parseArg a
 
 def hexStr (s : String) : String := showHex s.toUTF8.toList
